@@ -31,6 +31,15 @@ CORPUS = [
     {'name': '(repaired) r[radian] + k[dimensionless]', 'tree': [4, [3, 39], [3, 0]], 'target': None},
     {'name': '(repaired) a[mV] ** _2[one]', 'tree': [6, [3, 6], Q(1, 2, 17)], 'target': None},
     {'name': 'sin(x[deg]) + k', 'tree': [4, [7, 10, [3, 45]], [3, 0]], 'target': None},
+    {'name': 'shared (x + y): factor, then relation side: Piecewise((_2*(x+y), T[s] < x+y), (_0[ms], True))',
+     'tree': [13, [[5, Q(1, 2), [4, [3, 15], [3, 16]]], [9, 2, [3, 12], [4, [3, 15], [3, 16]]]], [Q(2, 0, 5), [11]]],
+     'target': None},
+    {'name': 'shared (x + y): exp argument, then sum operand: exp((x+y)/_2[ms]) * (T[s] + (x+y))',
+     'tree': [5, [7, 0, [5, [4, [3, 15], [3, 16]], [6, Q(1, 2, 5), [0, 0, F(-1)]]]], [4, [3, 12], [4, [3, 15], [3, 16]]]],
+     'target': None},
+    {'name': 'shared (x + y): sum operand, then exp argument',
+     'tree': [5, [4, [3, 12], [4, [3, 15], [3, 16]]], [7, 0, [5, [4, [3, 15], [3, 16]], [6, Q(1, 2, 5), [0, 0, F(-1)]]]]],
+     'target': None},
     {'name': 'SymPy Piecewise recursion', 'target': None,
      'tree': [13, [[7, 43, Q(0, 2)], [9, 0, [4, [3, 30], [5, [0, 0, F(-1)], [3, 29]]], [4, Q(1, F(1, 2), 9), [3, 27]]]],
               [[3, 0], [11]]]},
@@ -73,8 +82,12 @@ def gen_cases(seed, n_trees):
     cases = []
     for i in range(n_trees):
         g = uc.Gen(rng, strict=rng.choice([0.3, 0.5, 0.8, 0.95]), max_depth=5)
-        tree, nat = g.any(rng.choice([2, 3, 3, 4, 4, 5]))
-        ev = rng.random() < 0.4
+        if i % 5 == 4:       # one compound subterm shared between different unit contexts
+            tree, nat = uc.shared_tree(g)
+            ev = False
+        else:
+            tree, nat = g.any(rng.choice([2, 3, 3, 4, 4, 5]))
+            ev = rng.random() < 0.4
         tj = uc.tree_json(tree)
         tgs = targets_for(rng, nat)
         for k, t in enumerate(tgs):
@@ -159,6 +172,16 @@ def work(case):
     if ok:
         try:
             out = R.reify(new_expr)
+            # the same tree with the conversion quantities' units tabulated (index NU + k), for the model's infer
+            extra = []
+
+            def ui(u):
+                if id(u) in W.unit_index:
+                    return W.unit_index[id(u)]
+                extra.append(W.nunit_of(u))
+                return uc.NU + len(extra) - 1
+            res['out_units'] = uc.tree_json(uc.bridge.Reifier(lambda x: W.var_index[id(x)], ui).reify(new_expr))
+            res['extra_units'] = [tjson(n) for n in extra]
         except uc.bridge.Unsupported as e:      # SymPy re-evaluation left the real numbers ((-1)**0.5 -> I)
             return {'skip': 'result not reifiable: ' + repr(e)[:100]}
         sc, dims = W.unit_obs(units)
@@ -300,11 +323,19 @@ def evaluate(ctx, cases, results, use_model=True):
         impl = r['impl']
         kind = '%s:%s' % (c['kind'], ('converted' if impl[1] else 'unchanged') if impl[0] == 'ok' else impl[1])
         ctx.count(case_key=(r['eff'], c['target']), nontrivial=uc.depth(eff) >= 3, kind=kind)
+        infer_tag = None
+        if r.get('strict_err') and use_model and ctx.model_ok() and r.get('out_units') is not None:
+            # what does the model of the unchanged traverse answer on this very output?  (2 = other exception)
+            try:
+                extra = [tunjson(n) for n in r['extra_units']]
+                infer_tag = vlib.model_run(40, [uc.env_sexp(extra) + [uc.tree_unjson(r['out_units'])]])[0][0]
+            except Exception:
+                infer_tag = None
         for what, text in r['findings']:
             ctx.violation('C05 %s: %s' % (what, text),
                           {'tree': r['eff'], 'target': c['target'], 'name': c.get('name'), 'kind': c['kind'],
                            'impl': impl, 'out': r.get('out'), 'detail': {'kind': what, 'err': r.get('strict_err') or (impl[1] if impl[0] == 'err' else None),
-                                      'msg': impl[2] if impl[0] == 'err' else None}})
+                                      'msg': impl[2] if impl[0] == 'err' else None, 'infer_model': infer_tag}})
         if mods is not None:
             ctx.corr_cases += 1
             m = mods[i]
@@ -374,9 +405,14 @@ def floor_ceiling_converted(case):
 
 
 def result_magnitude_exception(case):
-    """strict inference of the result raises a Python arithmetic exception (C04 magnitude-arithmetic-exception)"""
-    return _kind(case) == 'strict' and case.get('detail', {}).get('err') in (
-        'ZeroDivisionError', 'Other:OverflowError', 'TypeError')
+    """strict inference of the result raises a Python arithmetic exception (C04 magnitude-arithmetic-exception) -- only
+    where the MODEL of the unchanged traverse raises on that very result too (infer answers "other exception"), or
+    declines because a complex magnitude arises (TypeError only)"""
+    d = case.get('detail', {})
+    if _kind(case) != 'strict':
+        return False
+    return (d.get('infer_model') == 2 and d.get('err') in ('ZeroDivisionError', 'Other:OverflowError', 'TypeError')) or \
+        (d.get('infer_model') == 3 and d.get('err') == 'TypeError')
 
 
 def minmax_rebuild_not_comparable(case):
